@@ -176,7 +176,7 @@ macro_rules! impl_block_mode {
                 Box::new($ad(self.0.clone()))
             }
             fn debug(&self) -> String {
-                format!("{:?}", self.0)
+                format!("{:?}\n{:#?}", self.0, self.0)
             }
             fn padded(self: Box<Self>, pad: Pad, k: Kind, inp: &[u8], out: &mut Vec<u8>) -> Result<usize, ()> {
                 let m = self.0;
@@ -232,7 +232,7 @@ macro_rules! impl_block_mode {
                 Box::new($ad(self.0.clone()))
             }
             fn debug(&self) -> String {
-                format!("{:?}", self.0)
+                format!("{:?}\n{:#?}", self.0, self.0)
             }
             fn padded(self: Box<Self>, pad: Pad, k: Kind, inp: &[u8], out: &mut Vec<u8>) -> Result<usize, ()> {
                 let m = self.0;
@@ -391,7 +391,7 @@ macro_rules! impl_core {
                 impl_core!(@dupcore $clone $core self)
             }
             fn debug(&self) -> String {
-                format!("{:?}", self.0)
+                format!("{:?}\n{:#?}", self.0, self.0)
             }
             fn into_stream(self: Box<Self>) -> Box<dyn Stream> {
                 Box::new($stream(StreamCipherCoreWrapper::from_core(self.0)))
@@ -433,7 +433,7 @@ macro_rules! impl_core {
                 impl_core!(@dupstream $clone $stream self)
             }
             fn debug(&self) -> String {
-                format!("{:?}", self.0)
+                format!("{:?}\n{:#?}", self.0, self.0)
             }
             fn drop_scan(self: Box<Self>) -> (Vec<u8>, Vec<u8>) {
                 drop_scan(self.0)
@@ -514,7 +514,7 @@ macro_rules! impl_buf {
                 Box::new($ad(self.0.clone()))
             }
             fn debug(&self) -> String {
-                format!("{:?}", self.0)
+                format!("{:?}\n{:#?}", self.0, self.0)
             }
             fn drop_scan(self: Box<Self>) -> (Vec<u8>, Vec<u8>) {
                 drop_scan(self.0)
